@@ -358,6 +358,7 @@ def r3(repo, res):
     # stage closures: the enclosing routines are folded whole and the filter each hands to `.filtered(...)` is captured
     from sa.fold import Lifted
 
+    NOVEL = collections.namedtuple("Mutation", ["pos", "op"])(100, "A>G")
     struct = Obj(position_cn=lambda p: 2, solution={"1": 3}, label="S", _solution_nice=lambda: "S", max_cn=lambda: 3)  # 2 copies at the probed position, 3 in total
 
     def capture_major():
@@ -418,6 +419,44 @@ def r3(repo, res):
             raise AnalysisError(f"estimate_minor hands {len(got)} threshold filters to Coverage.filtered for one structure (expected one)")
         return f_, got[0]
 
+    def capture_minor_two():
+        """Two major solutions on different structures; the three-copy one hands over a novel variant. -> the filter of each structure"""
+        f_ = repo.func("minor::estimate_minor")
+        got = []
+
+        class Raw:
+            _fold_ok = True
+            profile = Obj(cn_max=20)
+            _coverage = {}
+
+            def basic_filter(self, mut, cn=None, thres=None):
+                return True
+
+            def filtered(self, fn):
+                if callable(fn):
+                    got.append(fn)
+                return self
+
+        def partial(fn_, *a):
+            return lambda *b: fn_(*a, *b)
+
+        seen_struct = []
+
+        def solve(gene_, cov_, major_sol, *a, **k):
+            seen_struct.append(major_sol.cn_solution.label)
+            return []
+
+        struct3 = Obj(position_cn=lambda p: 3, solution={"1": 3}, label="S3", _solution_nice=lambda: "S3", max_cn=lambda: 3)
+        m2 = Obj(score=0.0, cn_solution=struct, added=[], solution={}, label="M2")
+        m3 = Obj(score=0.0, cn_solution=struct3, added=[NOVEL], solution={}, label="M3")
+        gene = Obj(alleles={}, random_mutations=set(), region_at=lambda p: (0, "e1"))
+        Lifted(f_, funcs={"SolvedAllele": lambda *a: a, "functools.partial": partial, "natsorted": lambda it, key=None: sorted(it, key=key),
+                          "_print_candidates": lambda *a: None, "solve_minor_model": solve, "Mutation": lambda *a: a},
+               env={"Coverage": Obj(quality_filter="QUALITY")})(gene, Raw(), [m2, m3], "any")
+        if len(got) != 2 or seen_struct != ["S", "S3"]:
+            raise AnalysisError(f"estimate_minor hands {len(got)} threshold filters to Coverage.filtered for two structures (refined in the order {seen_struct})")
+        return f_, got
+
     for label, capture in (("major stage", capture_major), ("minor stage", capture_minor)):
         try:
             outer, fn = capture()
@@ -442,6 +481,30 @@ def r3(repo, res):
         res.ob("C15.R3", outer, outer, bad is None,
                expected="keep iff basic_filter(cn=cn_max) and (reference op or basic_filter(cn=position copy number + 0.5)), asked of the coverage being filtered",
                found="ok" if bad is None else bad, key=f"closure:{label}")
+    # a novel variant handed over by the major solution of ANOTHER structure is thresholded like every other variant
+    try:
+        outer, fns = capture_minor_two()
+        bad = None
+        for fn, cn_here, label in ((fns[0], 2.5, "two-copy structure"), (fns[1], 3.5, "three-copy structure")):
+            for passing in [set(), {20}, {cn_here}, {20, cn_here}, {20, 6.0 - cn_here}]:
+                for mut in (NOVEL, type(NOVEL)(101, "C>T")):
+                    cov = Obj(basic_filter=lambda m_, cn=None, thres=None, _p=passing: cn in _p)
+                    v = fn(cov, mut)
+                    want = (20 in passing) and (cn_here in passing)
+                    if bool(v) != want:
+                        bad = bad or (f"{label}, variant {tuple(mut)}{' (novel, handed over by the three-copy solution)' if mut == NOVEL else ''}, "
+                                      f"thresholds passed at copy numbers {sorted(passing)}: kept = {v}, expected {want}")
+    except AnalysisError as e:
+        res.err("C15.R3", str(e))
+        return
+    except (Unfoldable, Raised) as e:
+        res.err("C15.R3", f"minor stage on two structures: outside folding language: {e}")
+        return
+    res.ob("C15.R3", outer, outer, bad is None,
+           expected="two major solutions on different structures, one handing over a novel variant: each structure's filter keeps a variant iff it passes that "
+                    "structure's own thresholds (cn_max and its own copy number + 0.5), novel or not",
+           found="ok" if bad is None else bad, clause="every variant a refined allele is reported to carry ... passes the configured single-copy fraction threshold",
+           key="closure:minor stage, two structures")
 
 
 def r4(repo, res):
@@ -484,6 +547,10 @@ def run(repo, res):
 
 
 MUTANTS = [
+    dict(name="R3 novel variants of any major solution bypass the minor-stage thresholds (seeded C15_c3 shape)", module="minor", expect="C15.R3",
+         edits=[("    mutations: Set[Mutation] = set()\n", "    mutations: Set[Mutation] = set()\n    vetted_: Set[Mutation] = set()\n"),
+                ("        mutations |= set(major_sol.added)\n", "        mutations |= set(major_sol.added)\n        vetted_ |= set(major_sol.added)\n"),
+                ("    def default_filter_fn(cn_sol, cov, mut):\n", "    def default_filter_fn(cn_sol, cov, mut):\n        if mut in vetted_:\n            return True\n")]),
     dict(name="R1 major: filters swapped", module="major", expect="C15.R1",
          old="    cov = coverage.filtered(Coverage.quality_filter)\n    cov = cov.filtered(filter_fns)",
          new="    cov = coverage.filtered(filter_fns)\n    cov = cov.filtered(Coverage.quality_filter)"),
